@@ -9,6 +9,21 @@ class Undecidable(Exception):
     pass
 
 
+_KNOWN_VARIANTS = {'core::option::Option::None': 0, 'core::option::Option::Some': 1, 'core::result::Result::Ok': 0, 'core::result::Result::Err': 1}
+
+
+def _known_discr(d):
+    if d[0] == 'discr':
+        x = d[1]
+        if x[0] == 'try':
+            x = x[1]
+        if x[0] == 'agg' and x[2] in _KNOWN_VARIANTS:
+            return _KNOWN_VARIANTS[x[2]]
+        if x[0] == 'from_residual':
+            return 1
+    return None
+
+
 def paths_with_constraints(a, limit=4096):
     """-> [(constraints, ret_term, ret_site)]; constraints: {atom_term: frozenset(allowed ints) | ('not', frozenset)}"""
     cfg = a.cfg
@@ -37,6 +52,17 @@ def paths_with_constraints(a, limit=4096):
         if t['k'] == 'switch':
             d = strip_sites(PathAn(a, path).val_op(t['discr'], a.term_point(bi)))
             vals = [v for v, _ in t['targets']]
+            # a branch on a value built earlier on this very path (the Option/Result returned by an inlined helper) is decided
+            kd = _known_discr(d)
+            if kd is not None:
+                nxt = None
+                for v, tgt in t['targets']:
+                    if v == kd:
+                        nxt = tgt
+                if nxt is None:
+                    nxt = t['otherwise']
+                stack.append((path + (nxt,), cons, last0))
+                continue
             for v, tgt in t['targets']:
                 c2 = restrict(cons, d, frozenset([v]))
                 if c2 is not None and not a.body.blocks[tgt]['cleanup']:
